@@ -457,8 +457,21 @@ func buildAssignments(files []parsedFile, cfg *Config, preserved *preservationSe
 	minToOrig := make(map[string]string, len(records))
 	origToMin := make(map[string][]string)
 
-	for i, record := range records {
-		newName := fmt.Sprintf("x%d", i+1)
+	taken := usedNames(files, cfg)
+	next := 0
+	for _, record := range records {
+		// Never hand out a name the inputs already spell: a preserved
+		// parameter, a top-level set name, an exported or excluded name, a
+		// free name bound by a macro expansion, or a quoted datum called x3
+		// would otherwise be captured by (or confused with) the new x3.
+		var newName string
+		for {
+			next++
+			newName = fmt.Sprintf("x%d", next)
+			if !taken[newName] {
+				break
+			}
+		}
 		assignments[record.sym] = newName
 		assignmentKeys[symbolLookupKey(record.sym)] = newName
 
@@ -486,6 +499,39 @@ func buildAssignments(files []parsedFile, cfg *Config, preserved *preservationSe
 		MinifiedToOriginal: minToOrig,
 		OriginalToMinified: origToMin,
 	}
+}
+
+// usedNames returns every symbol spelling that occurs anywhere in the inputs
+// (code, templates and quoted data; for pkg:name also the bare name) plus the
+// configured exclusions.
+func usedNames(files []parsedFile, cfg *Config) map[string]bool {
+	used := make(map[string]bool)
+	var walk func(n *lisp.LVal)
+	walk = func(n *lisp.LVal) {
+		if n == nil {
+			return
+		}
+		if n.Type == lisp.LSymbol || n.Type == lisp.LQSymbol {
+			used[n.Str] = true
+			if _, name, ok := splitQualifiedSymbol(n.Str); ok {
+				used[name] = true
+			}
+		}
+		for _, c := range n.Cells {
+			walk(c)
+		}
+	}
+	for _, f := range files {
+		for _, e := range f.exprs {
+			walk(e)
+		}
+	}
+	if cfg != nil {
+		for name := range cfg.Exclusions {
+			used[name] = true
+		}
+	}
+	return used
 }
 
 func applyAssignments(file *parsedFile, assignments map[*analysis.Symbol]string, assignmentKeys map[string]string, cfg *Config) {
